@@ -412,7 +412,7 @@ func (ps *PubSub) ChannelsWithPatterns(pattern string) []string {
 	for _, sconn := range ps.conns {
 		sconn.mu.Lock()
 		for ient := range sconn.entries {
-			if match.Match(ient.channel, pattern) {
+			if !ient.pattern && match.Match(ient.channel, pattern) {
 				channels = append(channels, ient.channel)
 			}
 		}
@@ -456,7 +456,7 @@ func (ps *PubSub) Numsub(channel string) int {
 	for _, sconn := range ps.conns {
 		sconn.mu.Lock()
 		for ient := range sconn.entries {
-			if ient.channel == channel {
+			if !ient.pattern && ient.channel == channel {
 				result++
 			}
 		}
